@@ -23,7 +23,7 @@ FullDom(d) == ValsDom(d.prog, d.prog[d.root].fields, 1, IF d.kw = "small" THEN 0
 KwargsOf(d) ==
     IF d.kw = "full" THEN FullDom(d)
     ELSE IF d.kw = "small"      \* also without the described fields: they are then computed
-    THEN FullDom(d) \cup {RestrictTo(full, NamesOf(full) \ DescribedNames(d)) : full \in FullDom(d)}
+    THEN FullDom(d) \cup {RestrictTo(full, NamesOf(full) \ DescribedNames(d)) : full \in FullDom(d)} \cup {<<>>}
     ELSE UNION {{RestrictTo(full, S) : S \in SUBSET NamesOf(full)} : full \in FullDom(d)}
 
 ModsOf(d) ==
